@@ -22,10 +22,14 @@ import (
 func init() {
 	register(&Prop{ID: "C02", Run: runC02, Replay: func(c *explore.Ctx, s *explore.SubStats, v explore.Violation) {
 		switch v.Sub {
-		case "families":
+		case "families", "schema-families":
 			var in famInput
 			if json.Unmarshal(v.Input, &in) == nil {
-				if f := findFamily(gen.ValidFamilies, in.Family); f != nil {
+				if strings.HasPrefix(in.Family, "schema:") {
+					if f := findFamily(gen.SchemaFamilies, strings.TrimPrefix(in.Family, "schema:")); f != nil {
+						c02SchemaFamily(c, s, f, in.N)
+					}
+				} else if f := findFamily(gen.ValidFamilies, in.Family); f != nil {
 					c02Family(c, s, f, in.N)
 				}
 			}
@@ -266,4 +270,67 @@ func runC02(c *explore.Ctx) {
 		}
 		s.WallS = time.Since(t0).Seconds()
 	}
+	maxS := c.Pick(64, 256)
+	s = c.Sub("schema-families", fmt.Sprintf("%d size families of type systems (layered interface hierarchies, interface cliques and chains, input-object chains, wide unions, extension floods) × n = 1 … 16 and 2^k up to %d, loaded", len(gen.SchemaFamilies), maxS),
+		"LoadSchema returns normally (schema or error) within the polynomial step bound 10⁶ + 2·10⁵·n + 600·n³ and call depth < 2000 + 40·n", "every case")
+	if s != nil {
+		t0 := time.Now()
+		idx := 0
+		for fi := range gen.SchemaFamilies {
+			f := &gen.SchemaFamilies[fi]
+			var ns []int
+			for n := 1; n <= 16; n++ {
+				ns = append(ns, n)
+			}
+			for n := 32; n <= maxS; n *= 2 {
+				ns = append(ns, n)
+			}
+			for _, n := range ns {
+				idx++
+				if idx%c.NShards != c.Shard {
+					continue
+				}
+				if c.Expired() {
+					s.Cap("deadline")
+					break
+				}
+				s.States++
+				s.Transitions++
+				c02SchemaFamily(c, s, f, n)
+			}
+		}
+		s.WallS = time.Since(t0).Seconds()
+	}
+}
+
+func c02SchemaFamBound(n int) int64 {
+	return 1_000_000 + 200_000*int64(n) + 600*int64(n)*int64(n)*int64(n)
+}
+
+func c02SchemaFamily(c *explore.Ctx, s *explore.SubStats, f *gen.Family, n int) {
+	text := f.Make(n)
+	rendered := fmt.Sprintf("schema family=%s n=%d bytes=%d", f.Name, n, len(text))
+	explore.Crumb(s.Name, rendered)
+	s.Executions++
+	in := famInput{"schema:" + f.Name, n, 0}
+	var err error
+	r := guarded(c02SchemaFamBound(n), 2000+40*n, func() { _, err = gqlparser.LoadSchema(&ast.Source{Name: "fam.graphql", Input: text}) })
+	s.Validated++
+	s.MaxOf("steps_per_n3_x100", r.Steps*100/int64(n*n*n+1))
+	s.MaxOf("depth", int64(r.MaxDepth))
+	if r.Panicked {
+		if r.Budget {
+			c.Report(s, explore.Violation{Key: "budget schema-family=" + f.Name, Input: explore.J(in), Rendered: rendered, Detail: fmt.Sprintf("LoadSchema: %s; bound %d steps, depth %d for n=%d (%d bytes)", r.PanicVal, c02SchemaFamBound(n), 2000+40*n, n, len(text))})
+		} else {
+			c.Report(s, explore.Violation{Key: "panic site=" + r.Site + " msg=" + normMsg(r.PanicVal), Input: explore.J(in), Rendered: rendered, Detail: r.PanicVal + "\n" + trimStack(r.Stack)})
+		}
+		return
+	}
+	o := "loaded"
+	if err != nil {
+		o = "rejected"
+	}
+	s.Outcome(f.Name + ":" + o)
+	s.Nontrivial++
+	s.Sample(func() any { return rendered })
 }
